@@ -16,7 +16,7 @@ RULE = (
     "refused or a transaction produced two or more packages; distinct = distinct scenario digests"
 )
 ASSUMPTIONS = [
-    "80% World A (SimulatedClient), 20% World B (BetfairClient against the exchange double, incl. the opt-in ExecutionValidation control with the order stream reported down); the Betdaq client is NOT covered",
+    "80% World A (SimulatedClient), 20% World B (BetfairClient against the exchange double, incl. the opt-in ExecutionValidation control with the order stream reported down); 8% World B sessions through a BetdaqClient (method-level API stub, per-call limits 10/10/50, polling diffs)",
     "a request on an order that was never sent (status VIOLATION) may re-mark it as a violation (the permitted effect for never-sent orders)",
     "creating an empty runner context for a runner is not a change of the runner accounting",
 ]
@@ -27,6 +27,11 @@ MONITORS = [LedgerMonitor, RequestMonitor]
 
 
 def generate(rng, i, tier):
+    if rng.random() < 0.08:
+        # World B with a Betdaq client (BetdaqOrder / BetdaqOrderPackage / BetdaqExecution, API stubbed at method level)
+        from .. import livegen
+
+        return livegen.gen_live_betdaq(rng)
     if rng.random() < 0.2:
         # World B: the same request discipline against the live Betfair execution seam (real thread-pool hand-over
         # replaced by the scheduler), scripted controls and forced requests included
